@@ -123,6 +123,8 @@ func genC06(t *rapid.T) *c06Case {
 	// paths
 	npaths := 1 + n(4, "npaths")
 	props := jv.ObjV()
+	var chains [][]int       // chain (resource index per hop position) of every path laid down so far
+	var chainHops [][]string // the $defs name of the hop at every position of that chain
 	for p := 0; p < npaths; p++ {
 		var path c06Path
 		L := n(5, "pathlen")
@@ -148,6 +150,44 @@ func genC06(t *rapid.T) *c06Case {
 		}
 		path.Resources = seq
 		hopName := func(pos int) string { return fmt.Sprintf("h%d_%d", p, pos) }
+		// A path may JOIN an earlier path: after its own prefix it jumps into hop j of path q, so
+		// that the very same $dynamicRef schema object is reached under different dynamic scopes
+		// (from different calls on one Resolved, or from sibling properties of one instance).
+		if len(chains) > 0 && n(2, "join") == 0 {
+			q := n(len(chains), "joinpath")
+			j := n(len(chains[q]), "joinpos")
+			ok := false
+			for _, r := range reach(at) {
+				if r == chains[q][j] {
+					ok = true
+				}
+			}
+			if ok {
+				own := append([]int{0}, seq...)
+				for pos := 0; pos < len(own); pos++ {
+					holder := res[own[pos]].v.Get("$defs")
+					var target string
+					if pos == len(own)-1 {
+						target = res[chains[q][j]].uri + "#/$defs/" + chainHops[q][j]
+					} else {
+						target = res[own[pos+1]].uri + "#/$defs/" + hopName(pos+1)
+					}
+					holder.Set(hopName(pos), jv.ObjV(jv.Member{K: "$ref", V: jv.StrV(target)}))
+					path.Hops = append(path.Hops, "$ref")
+				}
+				path.Hops = append(path.Hops, fmt.Sprintf("joins:path%d@%d", q, j))
+				path.Final, path.FinalKind = c.Paths[q].Final, "joined:"+c.Paths[q].FinalKind
+				props.Set(fmt.Sprintf("p%d", p), jv.ObjV(jv.Member{K: "$ref", V: jv.StrV("#/$defs/" + hopName(0))}))
+				c.Paths = append(c.Paths, path)
+				var ownHops []string
+				for pos := range own {
+					ownHops = append(ownHops, hopName(pos))
+				}
+				chains = append(chains, append(own, chains[q][j:]...))
+				chainHops = append(chainHops, append(ownHops, chainHops[q][j:]...))
+				continue
+			}
+		}
 		// the final reference lives in the last visited resource (or the root)
 		chain := append([]int{0}, seq...)
 		last := chain[len(chain)-1]
@@ -205,6 +245,12 @@ func genC06(t *rapid.T) *c06Case {
 		_ = cur
 		props.Set(fmt.Sprintf("p%d", p), jv.ObjV(jv.Member{K: "$ref", V: jv.StrV("#/$defs/" + hopName(0))}))
 		c.Paths = append(c.Paths, path)
+		chains = append(chains, chain)
+		var hops []string
+		for pos := range chain {
+			hops = append(hops, hopName(pos))
+		}
+		chainHops = append(chainHops, hops)
 	}
 	root := res[0].v
 	root.Set("properties", props)
